@@ -16,7 +16,9 @@ Replacements == {NStr(T_x), NStr(<<>>), NInt(5), NInt(0 - 1), NFloat(3, 2), NBoo
                  NStr(<<42>>), NStr(<<97,32,111,114>>),        \* *   "a or"
                  NFloat(1, 0), NFloat(0, 0),                   \* .inf  .nan  (denominator 0 marks the special floats)
                  NList(<<NList(<<NStr(T_x)>>)>>), NList(<<NMap(<<>>), NInt(2)>>),     \* nested list, list of map and number
-                 NInt(2147483647)}
+                 NInt(2147483647),
+                 \* well-formed texts of days that do not exist
+                 NStr(<<50,48,50,51,45,48,50,45,51,48>>), NStr(<<50,48,50,51,47,54,47,51,49>>), NStr(<<50,49,48,48,45,48,50,45,50,57>>)}     \* 2023-02-30  2023/6/31  2100-02-29
 \* key markers understood by the driver: \x01i = integer 5, \x01b = true, \x01n = null
 Keys == {T_x, <<>>, <<1, 105>>, <<1, 98>>, <<1, 110>>, <<120, 124, 122, 122>>}
 Base == CASE Shard = 1 -> BaseRule [] Shard = 2 -> BaseCorr [] Shard = 3 -> BaseCorrExt [] OTHER -> BaseFilter
@@ -42,11 +44,14 @@ ActionMutants ==
     \cup {[kind |-> k, mut |-> "root", doc |-> v] : k \in {"global*+rule", "rule+repeat*"}, v \in Replacements}
     \cup {[kind |-> k, mut |-> "none", doc |-> BaseGlobal] : k \in {"global*+rule", "rule+repeat*"}}
     \* documents that meet other documents of the collection AFTER parsing: a mutated rule that a valid
-    \* correlation rule refers to (references are resolved), a mutated filter next to the rule it targets
+    \* correlation rule refers to, a mutated correlation rule next to the rule it refers to (references are resolved), a mutated filter next to the rule it targets
     \* (the filter is applied)
     \cup {[kind |-> "rule*+corr", mut |-> "replace", doc |-> Replace(BaseRule, p, v)] : p \in Paths(BaseRule) \ {<<>>}, v \in Replacements}
     \cup {[kind |-> "rule*+corr", mut |-> "delete", doc |-> Delete(BaseRule, p)] : p \in Paths(BaseRule) \ {<<>>}}
     \cup {[kind |-> "rule*+corr", mut |-> "rekey", doc |-> Rekey(BaseRule, p, k)] : p \in {q \in Paths(BaseRule) : IsEntry(q)}, k \in Keys}
+    \cup {[kind |-> "rule+corr*", mut |-> "replace", doc |-> Replace(BaseCorr, p, v)] : p \in Paths(BaseCorr) \ {<<>>}, v \in Replacements}
+    \cup {[kind |-> "rule+corr*", mut |-> "delete", doc |-> Delete(BaseCorr, p)] : p \in Paths(BaseCorr) \ {<<>>}}
+    \cup {[kind |-> "rule+corr*", mut |-> "rekey", doc |-> Rekey(BaseCorr, p, k)] : p \in {q \in Paths(BaseCorr) : IsEntry(q)}, k \in Keys}
     \cup {[kind |-> "rule+filter*", mut |-> "replace", doc |-> Replace(BaseFilter, p, v)] : p \in Paths(BaseFilter) \ {<<>>}, v \in Replacements}
     \cup {[kind |-> "rule+filter*", mut |-> "delete", doc |-> Delete(BaseFilter, p)] : p \in Paths(BaseFilter) \ {<<>>}}
     \cup {[kind |-> "rule+filter*", mut |-> "rekey", doc |-> Rekey(BaseFilter, p, k)] : p \in {q \in Paths(BaseFilter) : IsEntry(q)}, k \in Keys}
